@@ -1,5 +1,6 @@
 import PPProofs.Lemmas.DiagramOut
 import PPProofs.Lemmas.DiagramDiverge
+import PPProofs.Lemmas.DiagramTerm
 import PPProofs.Props.Gen.C20Witness
 /-!
 # C20 — railroad diagram generation terminates and is referentially intact
@@ -20,6 +21,10 @@ What is proved here about the model, for all grammars / options / fuel unless sa
                                     unnamed elements makes `to_railroad` recurse for ever
 * `diverges_unnamed_cycle`          its instance for `E <<= Word(nums) | '(' + E + ')'`, for every fuel and
                                     every option setting - the termination clause of C20 is false
+* `terminates_partial`               PARTIAL: termination with the explicit depth bound |g|·(R+3)+R+2 for
+                                    grammars in which every cycle passes through a custom-named element
+                                    (`Ranked`, read by `ranked_cycle_has_cut`); the full clause also covers
+                                    unnamed cycles, where it is false
 * `empty_placeholder_witness`, `dangling_link_witness`, `unnamed_forward_root_witness`,
   `root_not_first_witness`          concrete grammars on which other clauses fail (registered findings)
 * `named_cycle_ok`                  non-vacuity: the same recursive grammar with a named Forward
@@ -113,6 +118,74 @@ theorem gUnnamed_loop (o : Opts) : UnnamedLoop gUnnamed o (fun u => u = 0 ∨ u 
 theorem diverges_unnamed_cycle (o : Opts) : ∀ fuel, toRailroad gUnnamed o fuel 0 = none :=
   diverges_of_unnamed_loop gUnnamed o _ (gUnnamed_loop o) 0 (Or.inl rfl)
 
+/-! ## termination when every cycle passes through a custom-named element -/
+
+/-- a path (at least one edge) that never *enters* a cut element (custom-named and worth extracting;
+    on a cycle every element is worth extracting, so there "cut" = "has a custom name") -/
+inductive UncutPath (g : Grammar) : Nat → Nat → Prop where
+  | step {u c : Nat} : c ∈ kidsOf g u → cut g c = false → UncutPath g u c
+  | trans {u v w : Nat} : UncutPath g u v → UncutPath g v w → UncutPath g u w
+
+theorem ranked_path_decreases {g : Grammar} {rank : Nat → Nat} (hr : Ranked g rank) {u v : Nat}
+    (h : UncutPath g u v) : rank v < rank u := by
+  induction h with
+  | step hc hcut =>
+    rename_i u c
+    unfold kidsOf at hc
+    cases hg : g[u]? with
+    | none => rw [hg] at hc; exact absurd hc (by simp)
+    | some n => rw [hg] at hc; exact hr u n hg c hc hcut
+  | trans _ _ ih1 ih2 => exact Nat.lt_trans ih2 ih1
+
+/-- **reading of the hypothesis `Ranked`**: a ranked grammar has no cycle that avoids the cut elements,
+    i.e. every cycle passes through a custom-named element. (Conversely every finite grammar with that
+    property has a rank function - longest uncut path - so the hypothesis is not stronger; that direction
+    is not formalised, the check computes such a rank for its generated grammars.) -/
+theorem ranked_cycle_has_cut {g : Grammar} {rank : Nat → Nat} (hr : Ranked g rank) (u : Nat) :
+    ¬ UncutPath g u u :=
+  fun h => Nat.lt_irrefl _ (ranked_path_decreases hr h)
+
+/-- `rankedB` (PPModel/Mod/Diagram.lean) is the executable form of `Ranked` -/
+theorem ranked_of_rankedB {g : Grammar} {rank : Nat → Nat} (h : rankedB g rank = true) : Ranked g rank := by
+  intro u n hg c hc hcut
+  unfold rankedB at h
+  rw [List.all_eq_true] at h
+  have hu : u ∈ List.range g.length := List.mem_range.mpr (List.getElem?_eq_some_iff.mp hg).1
+  have h1 := h u hu
+  rw [List.all_eq_true] at h1
+  have h2 := h1 c (by unfold kidsOf; rw [hg]; exact hc)
+  rw [hcut] at h2
+  simpa using h2
+
+/-- **terminates_partial** (full statement of C20: termination for ANY grammar - false, see
+    `diverges_of_unnamed_loop`; proved part:) if every cycle of the grammar passes through a custom-named
+    element worth extracting (`Ranked`: edges into other elements decrease `rank ≤ R`), then for every
+    option setting `to_railroad` returns with recursion depth at most `|g|·(R+3) + R + 2`
+    (with `R ≤ |g|`: quadratic in the number of elements; two Python frames per level).
+    Not covered: grammars using `stop_on` repetitions (not in the model). -/
+theorem terminates_partial (g : Grammar) (o : Opts) (rank : Nat → Nat) (R root : Nat)
+    (hrank : Ranked g rank) (hR : ∀ u, rank u ≤ R) :
+    ∀ fuel, fuelBound g R ≤ fuel → ∃ ds, toRailroad g o fuel root = some ds := by
+  intro fuel hf
+  unfold fuelBound at hf
+  have hfree := free_le g []
+  have hmul : free g [] * (R + 3) ≤ g.length * (R + 3) := Nat.mul_le_mul_right _ hfree
+  have hfuel : FuelOK g rank R fuel root [] := by
+    cases hc : cut g root with
+    | true => right; left; exact ⟨hc, rfl, by omega, by omega⟩
+    | false => right; right; exact ⟨hc, by have := hR root; omega⟩
+  obtain ⟨r, s', hconv, _⟩ := conv_total g o rank R hrank hR fuel root [] none 0 none {}
+    (fun b hb => absurd hb (by simp)) (fun b hb => absurd hb (by simp)) hfuel
+  have hcr : ∃ s, convertRoot g o fuel root = some s := by
+    unfold convertRoot
+    rw [hconv]
+    simp only
+    split <;> exact ⟨_, rfl⟩
+  obtain ⟨s, hs⟩ := hcr
+  unfold toRailroad
+  rw [hs]
+  exact ⟨_, rfl⟩
+
 /-! ## concrete grammars on which other clauses fail (each is replayed on the real code by the check) -/
 
 def opts0 : Opts := { vertical := some 3, showNames := false, showGroups := false, showHidden := false }
@@ -155,5 +228,21 @@ theorem named_cycle_ok :
       (ds.flatMap (·.tree.terminals)) = ["W:(0-9)", "'('", "')'"] := by
   refine ⟨_, rfl, ?_⟩
   decide +kernel
+
+/-- non-vacuity of `terminates_partial`: the named recursive grammar is ranked (Forward E ↦ 3,
+    MatchFirst ↦ 2, And ↦ 1, tokens ↦ 0; the edge And → E enters the cut element E) -/
+def rankNamed : Nat → Nat
+  | 0 => 3 | 1 => 2 | 3 => 1 | _ => 0
+
+example : Ranked gNamed rankNamed ∧ (∀ u, rankNamed u ≤ 3) ∧ cut gNamed 0 = true :=
+  ⟨ranked_of_rankedB (by decide +kernel), fun u => by unfold rankNamed; split <;> omega, by decide +kernel⟩
+
+/-- the unnamed variant admits no rank function at all (it has an uncut cycle 0 → 1 → 3 → 0) -/
+example : ¬ ∃ rank, Ranked gUnnamed rank := by
+  rintro ⟨rank, hr⟩
+  have p01 : UncutPath gUnnamed 0 1 := .step (by decide +kernel) (by decide +kernel)
+  have p13 : UncutPath gUnnamed 1 3 := .step (by decide +kernel) (by decide +kernel)
+  have p30 : UncutPath gUnnamed 3 0 := .step (by decide +kernel) (by decide +kernel)
+  exact ranked_cycle_has_cut hr 0 (.trans p01 (.trans p13 p30))
 
 end PP.Diagram
